@@ -20,6 +20,10 @@ CHECKS = {
             "DESIGN.md §3 C03",
             "All n! orderings (n <= 7 quick, 8 thorough), all sequences with repetition up to length 5/6, all subsets in emission and reverse order, and every payload byte x {0x01,0x80,0xFF} and every truncation of every object packet, of recorded real sessions (all schemes, cenc, in-band and FDT-only, two-transfer and carousel sessions) are pushed into the real MultiReceiver; on every execution every writer that saw complete must hold exactly the sender's bytes, no writer gets two terminal calls, and an altered object never stays open.",
             "Trusted: monitoring writer; one corrupted packet per history; MD5 collisions ignored."),
+    "C07": ("exploration", "exhaustive finite grid of (B,E,L) triples on the real partition functions against a 128-bit RFC 5052 reference", "gridx",
+            "DESIGN.md §3 C07",
+            "All (B,E,L) with B<=64, E<=24, L<=4000 (quick: 32/12/1500) and a full boundary grid up to B=2^32-1, E=65535, L=2^48-1 are evaluated on the real block_partitioning and block_length (every sbn) against a u128 reference; the B that the real EXT_FTI parser reconstructs from RaptorQ/Raptor (F,Z,T) is partitioned and compared; a real No-Code sender's (SBN,ESI) structure is compared on a small grid. Overflow checks and debug assertions are on.",
+            "Trusted: the 128-bit reference written from RFC 5052 section 9.1; random triples are not used."),
 }
 
 NOT_YET = {}
